@@ -1,6 +1,8 @@
 package c12
 
 import (
+	"math"
+	"math/big"
 	"os"
 	"strings"
 
@@ -37,7 +39,170 @@ func trimJS(s string) string {
 	return b.String()
 }
 
-var exclusions = []exclusion{}
+func asciiDigitsValueAtLeast(digits string, radix int, bits int) bool {
+	for _, c := range digits {
+		d := 99
+		switch {
+		case c >= '0' && c <= '9':
+			d = int(c - '0')
+		case c >= 'a' && c <= 'z':
+			d = int(c-'a') + 10
+		case c >= 'A' && c <= 'Z':
+			d = int(c-'A') + 10
+		}
+		if d >= radix {
+			return false
+		}
+	}
+	if digits == "" {
+		return false
+	}
+	z, ok := new(big.Int).SetString(digits, radix)
+	return ok && z.BitLen() > bits
+}
+
+func prefixRadix(s string) int {
+	if len(s) >= 2 && s[0] == '0' {
+		switch s[1] {
+		case 'x', 'X':
+			return 16
+		case 'o', 'O':
+			return 8
+		case 'b', 'B':
+			return 2
+		}
+	}
+	return 0
+}
+
+var exclusions = []exclusion{
+	{id: "C12-long-nondecimal-string", what: "Number()/unary + of a 0x/0o/0b string whose value needs more than 63 bits", in: func(kind, s string, _ int64) bool {
+		t := trimJS(s)
+		r := prefixRadix(t)
+		return kind == "string" && r != 0 && asciiDigitsValueAtLeast(t[2:], r, 63)
+	}},
+	{id: "C12-long-nondecimal-literal", what: "0x/0o/0b source literals whose value needs more than 63 bits", in: func(kind, s string, _ int64) bool {
+		t := strings.ReplaceAll(trimJS(s), "_", "")
+		r := prefixRadix(t)
+		return kind == "literal" && r != 0 && asciiDigitsValueAtLeast(t[2:], r, 63)
+	}},
+	{id: "C12-number-prefix-sign", what: "strings with a sign directly after a 0x/0o/0b prefix", in: func(kind, s string, _ int64) bool {
+		t := trimJS(s)
+		return kind == "string" && prefixRadix(t) != 0 && len(t) > 2 && (t[2] == '+' || t[2] == '-')
+	}},
+	{id: "C12-number-nel-whitespace", what: "strings containing U+0085", in: func(kind, s string, _ int64) bool {
+		return kind == "string" && strings.Contains(s, "\u0085")
+	}},
+	{id: "C12-number-neg-zeros", what: "strings that are '-' followed by two or more zeros", in: func(kind, s string, _ int64) bool {
+		t := trimJS(s)
+		return kind == "string" && len(t) > 2 && t[0] == '-' && strings.Trim(t[1:], "0") == ""
+	}},
+	{id: "C12-parseint-neg-zero", what: "parseInt inputs whose specified result is -0 ('-0', '-00x', '-0x0' …)", in: func(kind, s string, radix int64) bool {
+		if kind != "parseInt" {
+			return false
+		}
+		for _, R := range []int32{0, numref.ToInt32(float64(radix))} {
+			if numref.IsNegZero(numref.ParseInt(numref.Units(s), R).Value) {
+				return true
+			}
+		}
+		return false
+	}},
+	{id: "C12-parseint-large-imprecise", what: "parseInt inputs whose integer value is 2^57 or more", in: func(kind, s string, radix int64) bool {
+		if kind != "parseInt" {
+			return false
+		}
+		t := trimJS(s)
+		if len(t) > 0 && (t[0] == '-' || t[0] == '+') {
+			t = t[1:]
+		}
+		// more than 11 digits can reach 2^57 in radix 36; decide exactly for every radix the call could mean
+		for _, R := range []int{2, 8, 10, 16, 36, int(radix)} {
+			if R < 2 || R > 36 {
+				continue
+			}
+			u := t
+			if R == 16 && prefixRadix(u) == 16 {
+				u = u[2:]
+			}
+			n := 0
+			for n < len(u) && isRadixDigit(u[n], R) {
+				n++
+			}
+			if n > 0 && asciiDigitsValueAtLeast(u[:n], R, 57) {
+				return true
+			}
+		}
+		if prefixRadix(t) == 16 {
+			u := t[2:]
+			n := 0
+			for n < len(u) && isRadixDigit(u[n], 16) {
+				n++
+			}
+			return n > 0 && asciiDigitsValueAtLeast(u[:n], 16, 57)
+		}
+		return false
+	}},
+}
+
+func isRadixDigit(c byte, radix int) bool {
+	d := 99
+	switch {
+	case c >= '0' && c <= '9':
+		d = int(c - '0')
+	case c >= 'a' && c <= 'z':
+		d = int(c-'a') + 10
+	case c >= 'A' && c <= 'Z':
+		d = int(c-'A') + 10
+	}
+	return d < radix
+}
+
+// ---- doubles ----
+
+// skipDouble: subnormals other than ±MIN_VALUE while the ftoa denormal finding is listed
+// (the bignum path hangs or mis-estimates for them; a hang cannot be reported as a violation by a worker).
+func (b *batch) skipDouble(x float64) bool {
+	if b.fixed || noExclude || !listedBase["C12-ftoa-denormal"] {
+		return false
+	}
+	bits := math.Float64bits(x) &^ (1 << 63)
+	if bits > 1 && bits < 1<<52 {
+		b.st.Inc("excluded:C12-ftoa-denormal")
+		return true
+	}
+	return false
+}
+
+// skipRadix: toString(radix) of -1 < x < 0 while the lost-sign finding is listed.
+func (b *batch) skipRadix(x float64) bool {
+	if b.fixed || noExclude || !listedBase["C12-radix-neg-fraction-sign"] {
+		return false
+	}
+	if x < 0 && x > -1 {
+		b.st.Inc("excluded:C12-radix-neg-fraction-sign")
+		return true
+	}
+	return false
+}
+
+// skipSig: toPrecision / toExponential(d) of a negative value whose rounded digit string is 1 followed by zeros
+// (every digit carried) while the sign-overwrite finding is listed.
+func (b *batch) skipSig(x float64, wantExp string) bool {
+	if b.fixed || noExclude || !listedBase["C12-precision-negative-rollover"] {
+		return false
+	}
+	if !(x < 0) {
+		return false
+	}
+	m, _, _ := strings.Cut(strings.TrimPrefix(wantExp, "-"), "e")
+	m = strings.Replace(m, ".", "", 1)
+	if strings.HasPrefix(m, "1") && strings.Trim(m[1:], "0") == "" {
+		b.st.Inc("excluded:C12-precision-negative-rollover")
+		return true
+	}
+	return false
+}
 
 var noExclude = os.Getenv("VERIF_NO_EXCLUDE") != ""
 
@@ -46,7 +211,7 @@ func (b *batch) excluded(kind, s string, radix int64, count bool) bool {
 		return false
 	}
 	for _, e := range exclusions {
-		if listed[e.id] && e.in(kind, s, radix) {
+		if listedBase[e.id] && e.in(kind, s, radix) {
 			if count {
 				b.st.Inc("excluded:" + e.id)
 			}
